@@ -175,6 +175,9 @@ func defineOpt(g *getoptions.GetOpt, o *OptSpec, b *Built) interface{} {
 		if o.UseVar {
 			p := new([]string)
 			*p = []string{}
+			if o.PreFill {
+				*p = []string{"pre1", "pre2"}
+			}
 			g.StringSliceVar(p, o.Name, o.Min, o.Max, fns...)
 			return p
 		}
@@ -198,6 +201,9 @@ func defineOpt(g *getoptions.GetOpt, o *OptSpec, b *Built) interface{} {
 	case KStringMap:
 		if o.UseVar {
 			p := new(map[string]string)
+			if o.PreFill {
+				*p = map[string]string{"pk1": "pv1", "pk2": "pv2", "pk3": "pv3", "pk4": "pv4"}
+			}
 			g.StringMapVar(p, o.Name, o.Min, o.Max, fns...)
 			return p
 		}
@@ -245,6 +251,9 @@ func Build(spec *ProgSpec) *Built {
 	g.SetUnknownMode(getoptions.UnknownMode(spec.UnknownMode))
 	if spec.RequireOrder {
 		g.SetRequireOrder()
+	}
+	if spec.MapKeysLower {
+		g.SetMapKeysToLower()
 	}
 	root := &Node{Path: spec.Root.Name, Spec: &spec.Root, G: g, ptrs: map[string]interface{}{}}
 	b.Root = root
@@ -299,6 +308,9 @@ func (b *Built) populate(n *Node) {
 	}
 	for i := range c.Opts {
 		n.ptrs[c.Opts[i].Name] = defineOpt(g, &c.Opts[i], b)
+		if len(c.Opts[i].PreSet) > 0 {
+			_ = g.SetValue(c.Opts[i].Name, c.Opts[i].PreSet...)
+		}
 	}
 	if !c.NoFn {
 		path := n.Path
@@ -335,7 +347,8 @@ type Outcome struct {
 	Remaining    []string          `json:"remaining"`
 	RemainingNil bool              `json:"remaining_nil,omitempty"`
 	Writer       string            `json:"writer,omitempty"`
-	Opts         map[string]OptObs `json:"opts,omitempty"` // "path\x1fkey"
+	Opts         map[string]OptObs `json:"opts,omitempty"`  // "path\x1fkey"
+	Opts2        map[string]OptObs `json:"opts2,omitempty"` // after parsing the same command line a second time (RunOpts.Reparse)
 	Dispatched   bool              `json:"dispatched,omitempty"`
 	DispFailed   bool              `json:"disp_failed,omitempty"`
 	DispErr      string            `json:"disp_err,omitempty"`
@@ -381,6 +394,7 @@ func WithEnv(env map[string]string, fn func()) {
 // RunOpts selects what Run does after Parse.
 type RunOpts struct {
 	Dispatch bool
+	Reparse  bool // after a successful Parse, parse the same command line again on the same object and observe again
 }
 
 // Observe records all option observations of the live definition.
@@ -437,6 +451,14 @@ func Run(spec *ProgSpec, argv []string, ro RunOpts) (out *Outcome) {
 			out.IsHelp = errors.Is(err, getoptions.ErrorHelpCalled)
 		}
 		out.Opts = b.Observe()
+		if ro.Reparse && err == nil {
+			in2 := append([]string{}, argv...)
+			_, err2 := b.Root.G.Parse(in2)
+			w.Reset()
+			if err2 == nil {
+				out.Opts2 = b.Observe()
+			}
+		}
 		if ro.Dispatch && err == nil {
 			out.Dispatched = true
 			ctx := context.WithValue(context.Background(), ctxKey{}, b)
